@@ -61,11 +61,11 @@ ANCHORS = [
     "txtorcon.torcontrolprotocol:parse_keywords",
 ]
 FLOORS = {
-    "quick": {"evaluations": 350, "bootstrap_reads_compared": 5000, "events_delivered": 300, "event_reads_compared": 4000,
+    "quick": {"evaluations": 300, "bootstrap_reads_compared": 5000, "events_delivered": 300, "event_reads_compared": 4000,
               "tracking_probes": 250, "name_lookups_compared": 10000, "socks_endpoint_checks": 600,
               "reach:txtorcon.torconfig:TorConfig._conf_changed": 400,
-              "reach:txtorcon.torconfig:TorConfig._do_setup": 350,
-              "reach:txtorcon.torconfig:TorConfig._get_defaults": 350},
+              "reach:txtorcon.torconfig:TorConfig._do_setup": 300,
+              "reach:txtorcon.torconfig:TorConfig._get_defaults": 300},
     "thorough": {"evaluations": 5000, "bootstrap_reads_compared": 80000, "events_delivered": 4000,
                  "event_reads_compared": 60000, "tracking_probes": 3500, "name_lookups_compared": 150000,
                  "socks_endpoint_checks": 8000, "reach:txtorcon.torconfig:TorConfig._conf_changed": 5000},
@@ -473,6 +473,6 @@ def replay(case, rec):
 
 def plan(tier, seed):
     if tier == "quick":
-        return [{"mode": "boot", "n": 260} for _ in range(6)] + [{"mode": "events", "n": 220} for _ in range(10)]
+        return [{"mode": "boot", "n": 230} for _ in range(6)] + [{"mode": "events", "n": 190} for _ in range(10)]
     return [{"mode": "boot", "n": 2000, "timeout_s": 3000} for _ in range(12)] + \
            [{"mode": "events", "n": 1700, "timeout_s": 3000} for _ in range(20)]
